@@ -37,6 +37,7 @@ structure BlockFacts where
   ep : Option Nat                 -- yr_get_entry_point_offset on this block alone
   mods : List (Nat × Nat)         -- module m parses this block; value of its probe field
   cands : List Cand
+  err : Option Nat                -- verifying candidates in this block fails with this error code
 
 structure Facts where
   blocks : Nat → Option BlockFacts          -- by data key
@@ -125,6 +126,7 @@ def mkParams (rs : List RuleSpec) (imports : List Nat) (maxMatches : Nat) (walki
     maxMatches := maxMatches
     cands := fun key => (F.blocks key).map (·.cands) |>.getD []
     ep := fun key _ => (F.blocks key).bind (·.ep)
+    scanErr := fun key => (F.blocks key).bind (·.err)
     cond := fun i v => match rs[i]? with | some r => condProg F r.cond v | none => .ret false
     modParse := fun m =>
       if walking m then
